@@ -76,6 +76,8 @@ Proof.
       * (* FPersistAll *)
         rewrite Hon in Hne. simpl in Hne. congruence.
       * discriminate.
+      * (* FPersistIf: a no-op *)
+        apply (Hd f Hf Hne).
 Qed.
 
 Theorem write_through_sound w p q vals e :
@@ -156,7 +158,7 @@ Proof. intros f _. reflexivity. Qed.
 Theorem pair_lost_witness T C q :
   pair_lost T C q = true ->
   exists p u, In p (pair_paths T C false q) /\ unroll p u /\ no_bad u = true /\
-              onf e0 = true /\ in_sync (check_fields C q) e0 /\ ~ in_sync (check_fields C q) (run u 0 vals0 e0).
+              onf e0 = true /\ in_sync (check_fields T C q) e0 /\ ~ in_sync (check_fields T C q) (run u 0 vals0 e0).
 Proof.
   unfold pair_lost. intros H. apply existsb_exists in H as [p [Hp H]]. apply existsb_exists in H as [u [Hu H]].
   exists p, u. unfold path_loses in H. apply andb_true_iff in H as [Hb Hn].
